@@ -31,9 +31,9 @@ func TestFor(t *testing.T) {
 	cc := []row{
 		{"abc", 0, true, 1, true, "abc", true, 0},
 		{"abc", 2, true, 1, true, "abc", true, 2},
-		{"\n[", 0, true, 1, false, "", false, 0},  // empty first line, position at its terminator
+		{"\n[", 0, true, 1, false, "", false, 0}, // empty first line, position at its terminator
 		{"\n[", 1, true, 2, true, "[", true, 0},
-		{" a", 0, true, 1, true, "a", false, 0},   // inside leading blanks
+		{" a", 0, true, 1, true, "a", false, 0}, // inside leading blanks
 		{" a", 1, true, 1, true, "a", true, 0},
 		{"a\n \tb c\nd", 4, true, 2, true, "b c", true, 0},
 		{"a\n \tb c\nd", 6, true, 2, true, "b c", true, 2},
